@@ -114,6 +114,11 @@ var c13Contexts = []ctxTmpl{
 	{"function fn3(p1) { return p1; ", " }", true, true, true, false},
 	{"foreach e3 in c3 { v1 = 1; return e3; ", " v2 = 2; }", true, true, false, false},
 	{"switch (c1) { default { return 2; ", " } }", true, true, false, false},
+	// the hole sits in code whose condition is a constant
+	{"if (false) { ", " }", true, true, false, false},
+	{"if (true) { v1 = 1; } else { ", " }", true, true, false, false},
+	{"while (false) { ", " }", true, true, false, false},
+	{"switch (1) { case 2 { ", " } }", true, true, false, false},
 	// statement contexts with an expression hole
 	{"v4 = ", ";", false, true, false, false},
 	{"return ", ";", false, true, false, false},
@@ -133,6 +138,19 @@ var c13Contexts = []ctxTmpl{
 	{"{", ": 1}", false, false, false, false},
 	{"{1: ", "}", false, false, false, false},
 	{"c3[", "]", false, false, false, false},
+	// values and keys of repeated constant keys
+	{"{1: 0, 1: ", "}", false, false, false, false},
+	{"{7: ", ", 7: 2}", false, false, false, false},
+	{"{1.5: 0, 2: 1, 1.5: ", "}", false, false, false, false},
+	{"{true: 0, true: ", ", false: 2}", false, false, false, false},
+	{"{c1: 0, c1: ", "}", false, false, false, false},
+	{"{2: 0, ", ": 1, 2: 3}", false, false, false, false},
+	// operands that a constant makes irrelevant
+	{"false && (", ")", false, false, false, false},
+	{"true || (", ")", false, false, false, false},
+	{"0 * (", ")", false, false, false, false},
+	{"true ? 1 : (", ")", false, false, false, true},
+	{"false ? (", ") : 2", false, false, false, true},
 	{"(", ")", false, false, false, false},
 	{"-(", ")", false, false, false, false},
 	{"!(", ")", false, false, false, false},
@@ -195,6 +213,22 @@ func runReject(c *RejectCase) error {
 	}
 	if err == nil {
 		return fmt.Errorf("Prepare accepted an invalid script (%s)", c.Why)
+	}
+	// asking again does not make the script valid
+	err, pan = r.Prepare(false)
+	if pan != nil {
+		return fmt.Errorf("the second Prepare panicked: %v", pan)
+	}
+	if err == nil {
+		return fmt.Errorf("Prepare refused an invalid script (%s) the first time and accepted it the second time", c.Why)
+	}
+	r2 := eng.NewRunner(c.Script)
+	err, pan = r2.Prepare(true)
+	if pan != nil {
+		return fmt.Errorf("Prepare(NoOptimize) panicked: %v", pan)
+	}
+	if err == nil {
+		return fmt.Errorf("Prepare(NoOptimize) accepted an invalid script (%s)", c.Why)
 	}
 	return nil
 }
@@ -408,7 +442,6 @@ func TestC13TruncationsGenerated(t *testing.T) {
 		col.Case(tr, true, func() interface{} { return map[string]string{"truncated": clip(c.Script, 300)} })
 	})
 }
-
 
 // TestC13Nul: a NUL character is not a silent end of the script.
 func TestC13Nul(t *testing.T) {
